@@ -788,7 +788,7 @@ class EdgeView(IDView):
 
         if strict:
             for i, e in edges.items():
-                if reduce(lambda x, y: x & y, (nodes[n] for n in e)) == {i}:
+                if reduce(lambda x, y: x & y, (nodes[n] for n in e), set(edges)) == {i}:
                     max_edges.add(i)
         else:
             # This data structure so that the algorithm can handle multi-edges
@@ -800,9 +800,9 @@ class EdgeView(IDView):
                 # If a multi-edge has already been added to the set of
                 # maximal edges, we don't need to check.
                 if i not in max_edges:
-                    if reduce(lambda x, y: x & y, (nodes[n] for n in e)) == set(
-                        dups[frozenset(e)]
-                    ):
+                    if reduce(
+                        lambda x, y: x & y, (nodes[n] for n in e), set(edges)
+                    ) == set(dups[frozenset(e)]):
                         max_edges.update(dups[frozenset(e)])
 
         return self.from_view(self, bunch=max_edges)
